@@ -1,7 +1,104 @@
-//! EaseOfMovement — reference model (TODO).
+//! EaseOfMovement. Doc: 1 value — `Main value`. Linked formula (wikipedia / investopedia):
+//!   distance moved = (H + L)/2 - (H[-k] + L[-k])/2   (k = `period2`, "differencial period size"; classic k = 1)
+//!   box ratio      = volume / (H - L)                (volume scale constant = 1)
+//!   EMV            = distance moved / box ratio = distance * (H - L) / volume
+//!   value          = ma(EMV)
+//! Undefined for a candle with zero volume (division by zero; the documentation names no fallback).
+//! 1 signal — main value crosses the zero line (up: full buy, down: full sell).
 use super::*;
+use crate::Ser;
 
-/// returns None until the reference is written
-pub fn make(_cfg: &Cfg, _c0: &RC) -> Option<Box<dyn IndRef>> {
-	None
+#[derive(Clone)]
+struct Eom {
+	k: usize,
+	hs: Ser,
+	ls: Ser,
+	ma: SafeMa,
+	x: CrossD,
+}
+
+/// a moving average that tolerates undefined inputs for every kind: the median kind sorts its window and
+/// cannot hold an undefined element, so it is fed a placeholder and reported undefined while the
+/// placeholder is among its last n inputs (which is what "median of a window with an undefined element" is)
+#[derive(Clone)]
+struct SafeMa {
+	ma: Box<dyn rm::RefVV>,
+	/// Some((n, number of consecutive defined inputs, saturating at n)) for the median kind
+	smm: Option<(usize, usize)>,
+}
+impl SafeMa {
+	fn new(cfg: &Cfg, key: &str, pad: Q) -> Self {
+		let (kind, n) = cfg.ma(key);
+		if kind == "smm" {
+			let clean = if pad.is_defined() { n } else { 0 };
+			let p = if pad.is_defined() { pad } else { Q::exact(0.0) };
+			Self { ma: cfg.ma_ref(key, p), smm: Some((n, clean)) }
+		} else {
+			Self { ma: cfg.ma_ref(key, pad), smm: None }
+		}
+	}
+	fn step(&mut self, x: Q) -> Q {
+		match &mut self.smm {
+			None => self.ma.stepq(x),
+			Some((n, clean)) => {
+				if x.is_defined() {
+					*clean = (*clean + 1).min(*n);
+					let y = self.ma.stepq(x);
+					if *clean < *n {
+						Q::undefined()
+					} else {
+						y
+					}
+				} else {
+					*clean = 0;
+					self.ma.stepq(Q::exact(0.0));
+					Q::undefined()
+				}
+			}
+		}
+	}
+}
+
+/// `false`: EMV of a zero-volume candle is undefined (the documentation names no fallback).
+/// `true`: † follow the implementation (EMV = 0 for a zero-volume candle) — for diagnosis / wider coverage only.
+const ZERO_VOLUME_TERM_IS_ZERO: bool = false;
+
+pub fn make(cfg: &Cfg, c0: &RC) -> Option<Box<dyn IndRef>> {
+	let k = cfg.int("period2");
+	// on the constant prehistory the distance moved is 0, so EMV = 0 (0/0 when its volume is zero)
+	let pad = if c0.v == 0.0 && !ZERO_VOLUME_TERM_IS_ZERO { Q::undefined() } else { Q::exact(0.0) };
+	Some(Box::new(Eom {
+		k,
+		hs: Ser::exact_cap(c0.h, k + 2),
+		ls: Ser::exact_cap(c0.l, k + 2),
+		ma: SafeMa::new(cfg, "ma", pad),
+		// prehistory: value = 0, difference to the zero line = 0
+		x: CrossD::new(0.0),
+	}))
+}
+
+impl IndRef for Eom {
+	fn values(&mut self, c: &RC) -> Vec<Q> {
+		self.hs.pushv(c.h);
+		self.ls.pushv(c.l);
+		let k = self.k;
+		let mid = (Q::exact(c.h) + Q::exact(c.l)).scale(0.5);
+		let mid_k = (self.hs.back(k) + self.ls.back(k)).scale(0.5);
+		let dist = mid - mid_k;
+		let emv = if c.v == 0.0 {
+			// exact predicate of the input: division by zero volume
+			if ZERO_VOLUME_TERM_IS_ZERO {
+				Q::exact(0.0)
+			} else {
+				Q::undefined()
+			}
+		} else {
+			dist * (Q::exact(c.h) - Q::exact(c.l)) / Q::exact(c.v)
+		};
+		vec![self.ma.step(emv)]
+	}
+	fn signals(&mut self, _c: &RC, own: &[f64]) -> Vec<Sig> {
+		vec![sig_sign(self.x.cross(own[0], 0.0))]
+	}
+	indref!(Eom);
 }
